@@ -102,6 +102,8 @@ def mesh_op(m, op):
         return m.oriented()
     if k == 'removed_unused':
         return m.remove_unused_nodes()
+    if k == 'morphed':
+        return m.morphed(lambda p: p[0] + 0.125 * p[0] * p[0])
     raise ValueError(k)
 
 
@@ -362,7 +364,7 @@ def apply(s, step, ctx):
             s.reuse += 1
         after()
     elif op == 'mesh_op':
-        kinds = ['refined', 'adaptive', 'translated', 'scaled', 'mirrored', 'restrict', 'tagged', 'oriented', 'removed_unused']
+        kinds = ['refined', 'adaptive', 'translated', 'scaled', 'mirrored', 'restrict', 'tagged', 'oriented', 'removed_unused', 'morphed']
         k = kinds[step['kind'] % len(kinds)]
         if k == 'adaptive' and kind not in ('tri', 'tet', 'line'):
             k = 'refined'
